@@ -4,13 +4,15 @@ import (
 	"go/ast"
 	"go/types"
 	"strings"
+
+	"golang.org/x/tools/go/ssa"
 )
 
 // C11 Runtime packages match the Go functions they wrap.
 
 func init() {
 	register(&propertyCheck{
-		id: "C11", level: "other", needs: loadNeeds{},
+		id: "C11", level: "other", needs: loadNeeds{ssa: true},
 		decides: "for native pass-through functions only (data.Function literals with IsNative: true and a Go function as Value), that the declared Ego signature is one the marshaller can map onto the wrapped Go function: the number of parameters and the variadic flag agree with the Go signature, every declared parameter and return type whose Go counterpart is known (bool, byte, the integer and float types, string, error, interface{}, and arrays of those) is the Go function's type at that position, and the number of declared returns is the number of Go results.",
 		misses:  "everything about values: the results of wrappers written in Go around the library function, documented round trips, sort stability, fmt verbs; declared types the table does not map (package types, pointers, maps) are listed as info.",
 		run:     runC11,
@@ -233,6 +235,106 @@ func runC11(w *World, r *Report) {
 
 	r.Unit("native_function_literals", nLit)
 	r.Unit("native_methods", nMeth)
+
+	// ---- R-C11-2: what the Go function returned is what the Ego caller gets
+	r.Rule("R-C11-2", "result pass-through: every element of the result list CallDirect hands back is the Interface() of a value the reflective call returned (also on the path where the Go function returned an error)", 2)
+
+	bp := w.pkg("internal/language/bytecode")
+	if bp == nil {
+		r.Anchor("R-C11-2", "package language/bytecode")
+
+		return
+	}
+
+	cd := w.ssaFunc(bp, "CallDirect")
+	if cd == nil {
+		r.Anchor("R-C11-2", "bytecode.CallDirect")
+
+		return
+	}
+
+	// Interface() of an element of the slice the reflective call returned — not of a value made up here
+	fromResults := func(v ssa.Value) bool {
+		return derivesFrom(v, func(s ssa.Value) bool {
+			c, ok := s.(*ssa.Call)
+			if !ok || callID(c.Common()) != "reflect.Value.Interface" {
+				return false
+			}
+
+			made := derivesFrom(c.Call.Args[0], func(x ssa.Value) bool {
+				mc, ok := x.(*ssa.Call)
+				if !ok {
+					return false
+				}
+
+				switch callID(mc.Common()) {
+				case "reflect.Zero", "reflect.New", "reflect.ValueOf", "reflect.MakeSlice", "reflect.Indirect":
+					return true
+				}
+
+				return false
+			}, nil)
+
+			return !made
+		}, nil)
+	}
+
+	n := 0
+
+	allInstrs(cd, func(in ssa.Instruction) {
+		c := callTo(in, "internal/language/data.NewList")
+		if c == nil || len(c.Args) == 0 {
+			return
+		}
+
+		// elements of the variadic argument
+		var elems []ssa.Value
+
+		if sl, ok := c.Args[0].(*ssa.Slice); ok {
+			if al, ok := sl.X.(*ssa.Alloc); ok {
+				for _, ref := range *al.Referrers() {
+					if ia, ok := ref.(*ssa.IndexAddr); ok {
+						for _, r2 := range *ia.Referrers() {
+							if st, ok := r2.(*ssa.Store); ok {
+								elems = append(elems, st.Val)
+							}
+						}
+					}
+				}
+			}
+		}
+
+		if len(elems) == 0 {
+			// a slice built elsewhere (interfaces[i] = result.Interface()): judged by its stores
+			if u := c.Args[0]; u != nil {
+				allInstrs(cd, func(i2 ssa.Instruction) {
+					st, ok := i2.(*ssa.Store)
+					if !ok {
+						return
+					}
+
+					if ia, ok := st.Addr.(*ssa.IndexAddr); ok && sameSliceValue(ia.X, u) {
+						elems = append(elems, st.Val)
+					}
+				})
+			}
+		}
+
+		for _, e := range elems {
+			n++
+
+			key := "bytecode.CallDirect|result element " + sprintInt(n) + " comes from the call"
+			if fromResults(e) {
+				r.Discharge("R-C11-2", key, w.pos(in.Pos()), "")
+			} else {
+				r.Violate("R-C11-2", key, w.pos(in.Pos()), "a value handed back to the Ego caller is not what the Go function returned (for instance a zero value on the error path): strconv.ParseInt(\"300\", 10, 8) returns 127 with its range error in Go")
+			}
+		}
+	})
+
+	if n == 0 {
+		r.Anchor("R-C11-2", "result lists built in bytecode.CallDirect")
+	}
 }
 
 var c11OK = map[string]string{}
